@@ -434,7 +434,13 @@ randombytes_internal_random_stir(void)
         global.initialized = 1;
     }
 #ifdef HAVE_GETPID
-    global.pid = getpid();
+    {
+        const pid_t pid = getpid();
+
+        if (global.pid != pid) {
+            global.pid = pid;
+        }
+    }
 #endif
 
 #ifndef _WIN32
